@@ -158,25 +158,24 @@ theorem degLoop_bound (i : Nat) : ∀ (n d : Nat) (s : DSymData) (seen : Array B
             intro k
             show s.orbitRs.getD k 0 * (s.orbitVs.setIfInBounds (ixf s i d) _).getD k 0 < _
             rw [getDn_set]
-            split
-            · rename_i hc
-              rw [← hc.1, Nat.mul_div_cancel' (Nat.dvd_of_mod_eq_zero hm)]
+            by_cases hc : ixf s i d = k ∧ ixf s i d < s.orbitVs.size
+            · rw [if_pos hc, ← hc.1, Nat.mul_div_cancel' (Nat.dvd_of_mod_eq_zero hm)]
               exact hrest m (by simp)
-            · exact hb k
+            · rw [if_neg hc]; exact hb k
           · rw [degLoop_illegal horb hsb hr (by omega) hm] at heq; cases heq
 
 theorem degOuter_bound (spec : DSymSpec) : ∀ (n i : Nat) (s : DSymData) (seen : Array Bool),
-    SymInv s → s.size = spec.size → i + n = s.dim →
+    SymInv s → s.size = spec.size → i + n = s.dim → seen.size = s.orbitRs.size →
     (∀ l ∈ spec.mSpec, ∀ m ∈ l, m < usizeLimit) → DegBound s →
     ∀ s', degOuter spec n i s seen = .ok s' → DegBound s' := by
   intro n
   induction n with
   | zero =>
-    intro i s seen _ _ _ _ hb s' heq
+    intro i s seen _ _ _ _ _ hb s' heq
     simp only [degOuter, Outcome.ok.injEq] at heq
     subst heq; exact hb
   | succ n ih =>
-    intro i s seen h hsz hn hms hb s' heq
+    intro i s seen h hsz hn hseen hms hb s' heq
     have hi : i < s.dim := by omega
     cases hmsI : spec.mSpec[i]? with
     | none => simp [degOuter, hmsI] at heq
@@ -189,24 +188,94 @@ theorem degOuter_bound (spec : DSymSpec) : ∀ (n i : Nat) (s : DSymData) (seen 
         obtain ⟨s1, seen1, rest⟩ := pr
         have hl := degLoop_bound i spec.size 1 s seen msI h hi (by omega) (by omega) (hms msI hmem) hb
           s1 seen1 rest hres
-        have hl2 := (degLoop_spec i spec.size 1 s seen msI h hi (by omega) (by omega)
-          (by
-            -- the size of `seen` is irrelevant for the facts used here
-            exact (Classical.em (seen.size = s.orbitRs.size)).elim id (fun hne => by
-              exfalso
-              -- if the sizes differ `degLoop` still returns; we only need `SymInv` of the result,
-              -- which is obtained below without this hypothesis
-              exact absurd rfl (fun _ : seen.size = seen.size => hne (by
-                -- unreachable: handled by `degLoop_inv` instead
-                exact False.elim (by
-                  have := hne
-                  exact absurd (rfl : (0 : Nat) = 0) (fun _ => by omega))))))).2 s1 seen1 rest hres
+        obtain ⟨a, b, c⟩ := (degLoop_spec i spec.size 1 s seen msI h hi (by omega) (by omega) hseen).2
+          s1 seen1 rest hres
         by_cases hrest : rest = []
         · subst hrest
           rw [degOuter_next hmsI hres] at heq
-          have hsz1 : s1.size = s.size := by unfold DSymData.size; rw [hl2.2.1]
-          have hdm1 : s1.dim = s.dim := by unfold DSymData.dim; rw [hl2.2.1]
-          exact ih (i + 1) s1 seen1 hl2.1 (by omega) (by omega) hms hl.1 s' heq
+          have hsz1 : s1.size = s.size := by unfold DSymData.size; rw [b]
+          have hdm1 : s1.dim = s.dim := by unfold DSymData.dim; rw [b]
+          have hrs : s1.orbitRs = s.orbitRs := by rw [a.rs_eq, h.rs_eq, b]
+          exact ih (i + 1) s1 seen1 a (by omega) (by omega) (by rw [c, hrs]; exact hseen) hms hl.1 s' heq
         · rw [degOuter_unused hmsI hres hrest] at heq; cases heq
+
+/-- a symbol returned by `fromSpec` on numbers that fit `usize` fits `usize` -/
+theorem fromSpec_fits (spec : DSymSpec) (s : DSymData) (h : fromSpec spec = .ok s)
+    (hsize : spec.size < usizeLimit) (hms : ∀ l ∈ spec.mSpec, ∀ m ∈ l, m < usizeLimit) :
+    SymInv s ∧ 1 ≤ s.size ∧ 1 ≤ s.dim ∧ Fits s 1 1 := by
+  by_cases ha : Admitted spec
+  case neg => rw [fromSpec_not_admitted spec ha] at h; cases h
+  by_cases hb : spec.size * (spec.dim + 1) < allocLimit
+  case neg => rw [fromSpec_too_big spec ha hb] at h; cases h
+  obtain ⟨inv, hs, hd⟩ := (fromSpec_core spec ha hb).2 s h
+  have hU : (1 : Nat) < usizeLimit := by unfold usizeLimit; decide
+  refine ⟨inv, by rw [hs]; exact ha.size_pos, by rw [hd]; exact ha.dim_pos,
+    ⟨hU, hU, by rw [hs]; exact hsize, by rw [hd]; exact ha.dim_fits, by rw [hs, hd]; exact hb, ?_⟩⟩
+  -- the degrees: follow `fromSpec` down to the degree loops
+  have hbound : DegBound s := by
+    rw [fromSpec_admitted spec ha] at h
+    obtain ⟨ds0, hnew, _, _, _, _⟩ := newC_ne_panic ha.size_pos ha.dim_pos hb
+    rw [hnew] at h
+    dsimp only at h
+    cases hres : opOuter spec (spec.dim + 1) 0 ds0 with
+    | err => rw [hres] at h; cases h
+    | panic => rw [hres] at h; cases h
+    | ok ds =>
+      rw [hres] at h
+      dsimp only at h
+      cases hof : ofPartialC ds with
+      | err => rw [hof] at h; cases h
+      | panic => rw [hof] at h; cases h
+      | ok sym0 =>
+        rw [hof] at h
+        dsimp only at h
+        -- `ofPartialC ds = ok sym0` means `sym0 = ofSimple ds` with ds complete
+        have hsym0 : sym0 = DSymData.ofSimple ds ∧ ds.isCompletePartial = true := by
+          unfold ofPartialC at hof
+          split at hof
+          · cases hof
+          · unfold DSymData.ofPartial DSetData.toSimple at hof
+            split at hof
+            · rename_i heq
+              split at heq
+              · rename_i hc
+                cases heq; cases hof; exact ⟨rfl, hc⟩
+              · cases heq
+            · cases hof
+            · cases hof
+        obtain ⟨rfl, _⟩ := hsym0
+        -- well-formedness of ds comes from the op loops
+        obtain ⟨ds0', hnew', hsz0, hdm0, hv0, hz0⟩ := newC_ne_panic ha.size_pos ha.dim_pos hb
+        rw [hnew] at hnew'
+        cases hnew'
+        have hsome : ∀ j, j ≤ ds0.dim → (spec.opSpec[j]?).isSome := by
+          intro j hj
+          rw [hdm0] at hj
+          rw [List.getElem?_eq_getElem (by rw [ha.op_len]; omega)]
+          rfl
+        obtain ⟨a, b, c, e⟩ := (opOuter_spec spec (spec.dim + 1) 0 ds0 hv0 hsz0 (by omega) hsome
+          (by intro j x hj; omega)).2 ds hres
+        have hvs : ValidSet ds := validSet_of_complete c (by
+          intro j x hj hx1 hx2; exact e j x (by omega) hx1 (by omega))
+        have hinv0 := SymInv.ofSimple hvs
+        refine degOuter_bound spec spec.dim 0 (DSymData.ofSimple ds) _ hinv0
+          (by show ds.size = _; omega) (by show 0 + spec.dim = ds.dim; omega) (by simp) hms ?_ s h
+        intro k
+        show _ * (Array.replicate _ 0).getD k 0 < _
+        rw [getD_replicate, Nat.mul_zero]
+        unfold usizeLimit; decide
+  intro i d hi hd1 hd2
+  exact hbound (ixf s i d)
+
+/-- printing a parsed symbol gives text that parses to the same symbol again -/
+theorem reparse (cs : List Char) (s : DSymData) (h : parse cs = .ok s) :
+    ∃ cs' t, fmt (Printable.ofPartialDSym s 1) = .ok cs' ∧ parse cs' = .ok t ∧ SameSym s t := by
+  unfold parse at h
+  split at h
+  · cases h
+  · rename_i spec hl
+    obtain ⟨hsize, hms⟩ := lex_fits hl
+    obtain ⟨inv, h1, h2, hf⟩ := fromSpec_fits spec s h hsize hms
+    exact print_parse s 1 1 inv h1 h2 hf
 
 end DSymVerif.Text
